@@ -27,7 +27,8 @@ for fn in files:
         lines = [l.strip() for l in d.split("\n") if l.strip()]
         what = lines[0]
         for l in lines[1:]:
-            if l.startswith(("parquetgen failed", "generated code does not compile", "./", "case ", "struct shape")) or "panic" in l[:40]:
+            l = re.sub(r"^[a-z]\d+(v\d+)?/parquet\.go:\d+:\d+: ", "parquet.go: ", l)
+            if l.startswith(("parquetgen failed", "parquet.go: ", "case ", "exit status")) or "panic" in l[:40] or "expected" in l[:60]:
                 what += " | " + l
             if len(what) > 260:
                 break
